@@ -286,7 +286,7 @@ def unit_upper(env, T, name, n):
     return I + N, Minv
 
 
-def make_qr(env, log):
+def make_qr(env, log, gauge=True):
     """A reduced-QR-shaped factorisation with Q R = A (the only property that state preservation may rely on):
     m >= n: Q = A M, R = M^-1;  m < n: Q = M, R = M^-1 A, with M symbolic unit upper triangular.
     Q is returned column-major like LAPACK's (the code takes views of q.mT)."""
@@ -295,7 +295,10 @@ def make_qr(env, log):
     def qr(a, mode="reduced"):
         m, n = a.shape
         j = len(log)
-        if m >= n:
+        if not gauge:  # M = identity: shapes and Q R = A only (bookkeeping cases)
+            I = T.eye(min(m, n), dtype=T.complex128)
+            Q, R = (a.clone(), I) if m >= n else (I, a.clone())
+        elif m >= n:
             M, Minv = unit_upper(env, T, f"g{j}", n)
             Q, R = a @ M, Minv
         else:
@@ -373,7 +376,7 @@ def truncate_case(n, d, chis, nonneg):
 OPS = ("orthogonalize", "truncate", "scale", "apply", "add")
 
 
-def sequence_case(n, d, chis, length):
+def sequence_case(n, d, chis, length, small=False, track=True):
     """arbitrary sequences (bounded length) of re-centring / truncating / scaling / applying / adding:
     declared centre, bond cap and (for the non-truncating steps) the represented state are tracked."""
 
@@ -381,13 +384,13 @@ def sequence_case(n, d, chis, length):
         T = env.torch
         MPS = env.mod("emu_mps.mps").MPS
         fs = sym_mps(env, "a", n, d, chis)
-        mbd = env.choice("max_bond_dim", [1, 2])
+        mbd = env.choice("max_bond_dim", [2] if small else [1, 2])
         eps = epsilon(env)
-        c = env.choice("centre", [None, 0, n - 1])
+        c = env.choice("centre", [None, n - 1] if small else [None, 0, n - 1])
         a = MPS(fs, orthogonality_center=c, precision=eps, max_bond_dim=mbd, num_gpus_to_use=0, eigenstates=EIG[d])
         qlog, elog = [], []
-        dense = refs.contract_mps(T, a.factors)
-        with patched(env, qr=make_qr(env, qlog), eigh=make_eigh(env, elog, True, False)):
+        dense = refs.contract_mps(T, a.factors) if track else None
+        with patched(env, qr=make_qr(env, qlog, gauge=track), eigh=make_eigh(env, elog, True, False)):
             for step in range(length):
                 op = env.choice(f"op{step}", list(OPS))
                 e0 = len(elog)
@@ -401,12 +404,12 @@ def sequence_case(n, d, chis, length):
                 elif op == "scale":
                     s = env.cplx(f"s{step}")
                     a = s * a
-                    dense = s * dense
+                    dense = s * dense if track else None
                 elif op == "apply":
                     j = env.choice(f"site{step}", list(range(n)))
                     O = env.tensor_cplx(f"O{step}", (d, d))
                     a.apply(j, O)
-                    dense = refs.embed(T, O, j, n, d) @ dense
+                    dense = refs.embed(T, O, j, n, d) @ dense if track else None
                     c = j
                 else:
                     b = MPS(sym_mps(env, f"b{step}_", n, d, [1] * (n - 1)), precision=eps, max_bond_dim=mbd, num_gpus_to_use=0, eigenstates=EIG[d])
@@ -421,10 +424,11 @@ def sequence_case(n, d, chis, length):
                     env.check(a.get_max_bond_dim() <= mbd, f"step {step}: no bond exceeds max_bond_dim after a truncating operation")
                     for j_, rec in enumerate(elog[e0:]):
                         weight_vcs(env, rec["vals"], a.factors[n - 1 - j_].shape[0], mbd, eps, f"step {step} bond {n - 1 - j_}", lazy_check=False)
-                    dense = refs.contract_mps(T, a.factors)
+                    dense = refs.contract_mps(T, a.factors) if track else None
                 else:
                     env.check(len(elog) == e0, f"step {step}: no truncation in a non-truncating operation")
-                    env.check_eq(refs.contract_mps(T, a.factors), dense, f"step {step}: represented state follows the operation (given Q R = A)")
+                    if track:
+                        env.check_eq(refs.contract_mps(T, a.factors), dense, f"step {step}: represented state follows the operation (given Q R = A)")
                 env.check(a.max_bond_dim == mbd and a.precision is eps, f"step {step}: precision and max_bond_dim are inherited")
 
     return fn
@@ -480,16 +484,60 @@ META = {
 }
 
 
+class _PartEnv:
+    """env seen by one part of a grouped case: mutant names are prefixed by the part name."""
+
+    def __init__(self, env, prefix):
+        self._env = env
+        self._prefix = prefix
+
+    def __getattr__(self, k):
+        return getattr(self._env, k)
+
+    def mutant(self, name):
+        return self._env.mutant(f"{self._prefix}:{name}")
+
+
+def group(name, items):
+    """One Case whose paths are the union of the paths of its parts (the part is a forked choice)."""
+    if len(items) == 1:
+        it = items[0]
+        return Case(name=it["name"], fn=it["fn"], covers=it["covers"], bounds=it["bounds"], canaries=it["canaries"], weight=it["weight"], **it["kw"])
+    names = [it["name"] for it in items]
+
+    def fn(env):
+        k = env.choice("part", list(range(len(items))))
+        items[k]["fn"](_PartEnv(env, names[k]))
+
+    covers = []
+    for it in items:
+        for c in it["covers"]:
+            if c not in covers:
+                covers.append(c)
+    return Case(
+        name=name,
+        fn=fn,
+        covers=covers,
+        bounds={it["name"]: it["bounds"] for it in items},
+        canaries=[f"{it['name']}:{m}" for it in items for m in it["canaries"]],
+        weight=sum(it["weight"] for it in items),
+        conc_samples=min(3 * len(items), 12),
+        timeout_ms=max(it["kw"].get("timeout_ms", 20000) for it in items),
+        deadline_s=sum(it["kw"].get("deadline_s", 300.0) for it in items),
+    )
+
+
 def cases(tier):
     quick = tier == "quick"
-    out = []
+    items = []
 
-    def add(name, fn, covers, bounds, canaries, weight=1.0, **kw):
-        out.append(Case(name=name, fn=fn, covers=covers, bounds=bounds, canaries=canaries, weight=weight, **kw))
+    def add(grp, name, fn, covers, bounds, canaries, weight=1.0, **kw):
+        items.append(dict(group=grp, name=name, fn=fn, covers=covers, bounds=bounds, canaries=canaries, weight=weight, kw=kw))
 
     for k in ([1, 4] if quick else [1, 2, 4, 6]):
         for nonneg in (True, False):
             add(
+                "cutoff",
                 f"cutoff_k{k}_{'nonneg' if nonneg else 'anysign'}",
                 cutoff_case(k, nonneg),
                 COV_U[:1],
@@ -500,6 +548,7 @@ def cases(tier):
     grid = [(2, 3, True, True), (3, 2, False, True)] if quick else [(2, 3, True, True), (3, 2, False, True), (4, 4, True, False), (3, 4, False, True), (4, 2, True, True), (1, 3, True, True)]
     for r, c, nonneg, sym_q in grid:
         add(
+            "split",
             f"split_{r}x{c}_{'nonneg' if nonneg else 'anysign'}_{'symq' if sym_q else 'eye'}",
             split_case(r, c, nonneg, sym_q),
             COV_U,
@@ -517,6 +566,7 @@ def cases(tier):
         )
     for r, nonneg in ([(3, True)] if quick else [(2, False), (3, True), (4, True)]):
         add(
+            "split",
             f"split_both_{r}x{r}_{'nonneg' if nonneg else 'anysign'}",
             split_both_case(r, nonneg),
             COV_U,
@@ -533,6 +583,7 @@ def cases(tier):
     ]
     for n, d, chis, nonneg, sym_q in grid:
         add(
+            "truncate_impl",
             f"truncate_impl_n{n}_d{d}_{'x'.join(map(str, chis))}_{'nonneg' if nonneg else 'anysign'}_{'symq' if sym_q else 'eye'}",
             truncate_impl_case(n, d, chis, nonneg, sym_q),
             COV_T,
@@ -544,6 +595,7 @@ def cases(tier):
     grid = [(3, 2, [2, 2]), (2, 2, [3])] if quick else [(3, 2, [2, 2]), (2, 2, [3]), (4, 2, [2, 2, 2]), (3, 3, [2, 3]), (3, 2, [3, 1])]
     for n, d, chis in grid:
         add(
+            "orthogonalize",
             f"orthogonalize_n{n}_d{d}_{'x'.join(map(str, chis))}",
             orthogonalize_case(n, d, chis),
             COV_M[-4:],
@@ -554,6 +606,7 @@ def cases(tier):
     grid = [(3, 2, [2, 2], True)] if quick else [(2, 2, [2], False), (3, 2, [2, 2], True), (3, 3, [2, 1], True), (4, 2, [2, 2, 1], False)]
     for n, d, chis, nonneg in grid:
         add(
+            "truncate",
             f"truncate_n{n}_d{d}_{'x'.join(map(str, chis))}_{'nonneg' if nonneg else 'anysign'}",
             truncate_case(n, d, chis, nonneg),
             COV_M,
@@ -562,15 +615,38 @@ def cases(tier):
             weight=30 * n * d,
             deadline_s=800.0,
         )
-    grid = [(2, 2, [2], 2)] if quick else [(2, 2, [2], 3), (3, 2, [2, 1], 2), (2, 3, [2], 2)]
-    for n, d, chis, L in grid:
+    grid = [(2, 2, [2], 2, True)] if quick else [(2, 2, [2], 2, False), (2, 2, [2], 3, True), (3, 2, [2, 1], 2, True), (2, 3, [2], 2, False)]
+    for n, d, chis, L, small in grid:
         add(
+            "sequence",
             f"sequence_n{n}_d{d}_{'x'.join(map(str, chis))}_len{L}",
-            sequence_case(n, d, chis, L),
+            sequence_case(n, d, chis, L, small, track=(n == 2)),
             COV_S,
-            {"sites": n, "dim": d, "bonds": chis, "operations": list(OPS), "length": L, "max_bond_dim": [1, 2]},
+            {
+                "sites": n,
+                "dim": d,
+                "bonds": chis,
+                "operations": list(OPS),
+                "length": L,
+                "max_bond_dim": [2] if small else [1, 2],
+                "initial_centre": [None, n - 1] if small else [None, 0, n - 1],
+                "dense_state_tracked": n == 2,
+            },
             ["stale_centre", "one_more"],
             weight=100 * n * d * L,
             deadline_s=1200.0,
         )
+    out = []
+    if quick:  # few worker processes: one per group
+        order = []
+        for it in items:
+            if it["group"] not in order:
+                order.append(it["group"])
+        for g in order:
+            out.append(group(g, [it for it in items if it["group"] == g]))
+    else:
+        out.append(group("cutoff", [it for it in items if it["group"] == "cutoff"]))
+        for it in items:
+            if it["group"] != "cutoff":
+                out.append(group(it["name"], [it]))
     return out
